@@ -1,86 +1,181 @@
 (** C01: a query blocked by rules is answered locally and never forwarded.
     Only statements here; proofs live in Proofs/Pipeline.v (layer A: AdGuard
-    Home's pipeline, for arbitrary rule engines, verdict oracles and
-    upstreams) and Proofs/RuleEngine.v (layer B: the engine model). *)
+    Home's pipeline, for arbitrary rule engines, verdict oracles, rewrite
+    sort and upstreams) and Proofs/RuleEngine.v (layer B: the engine model).
+
+    Round 2: every theorem quantifies over configurations in which the legacy
+    rewrites, $dnsrewrite / $ctag rules, the hosts-file container, safe
+    search, a block page given as a name, DDR and the DHCP stages are part of
+    [cfg]; nothing is assumed absent. *)
 From Coq Require Import List NArith Bool.
 From AGH Require Import Base.Run Base.NetAddr Base.RuleEngine Model.Pipeline Proofs.Pipeline Proofs.RuleEngine.
 From AGH Require Import Model.PipelineNames Gen.PipelineTables Proofs.PipelineTables.
+From AGH Require Import Model.PipelineGuards Proofs.PipelineGuards.
+From AGH Require Model.Rewrites.
 Import ListNotations.
 Local Open Scope N_scope.
 
-(** For all configurations (five modes, any custom addresses and TTL), all
-    engines, oracles, upstreams and requests: protection on, and the rule
-    lists block the name (no allow-list rule matches, the block engine's
-    winning rule is not an exception) or an active blocked service does
-    while the lists are silent  ==>  nothing is sent upstream and the answer
-    is the synthetic answer of the mode (the table [synthetic]). *)
+(** For all configurations (five modes, any custom addresses and TTL, any
+    rewrites / hosts file / safe search / DDR / DHCP settings), all engines,
+    oracles, upstreams and requests: protection on; no stage in front of
+    filtering answers the request; none of the administrator's own rewrites
+    (legacy rewrite, hosts file, $dnsrewrite rule) applies to the name; and
+    the rule lists block the name (no allow-list rule matches, the block
+    engine's winning rule is not an exception) or an active blocked service
+    does while the lists are silent  ==>  nothing is sent upstream, the
+    answer is the synthetic answer of the mode (the table [synthetic]) and
+    carries the client's question. *)
 Theorem C01_blocked_is_local :
-  forall allow_eng block_eng sb par c up q,
-  blocked_by_spec allow_eng block_eng c q ->
-  let o := process allow_eng block_eng sb par c up q in
+  forall allow_eng block_eng sb par ss srt c up q,
+  blocked_by_spec allow_eng block_eng srt c q ->
+  let o := process allow_eng block_eng sb par ss srt c up q in
   o_calls o = [] /\
   r_filtered (o_result o) = true /\ rule_reason (r_reason (o_result o)) /\
-  o_resp o = Some (synthetic c (q_name q) (q_qtype q) (ips_from_rules (o_result o))).
+  o_resp o = Some (synthetic c (q_name q) (q_qtype q) (ips_from_rules (o_result o))) /\
+  o_qname o = q_name q.
 Proof. exact blocked_is_local. Qed.
 Print Assumptions C01_blocked_is_local.
 
 (** "The answer contains no upstream data": non-interference in the upstream. *)
 Theorem C01_no_upstream_data :
-  forall allow_eng block_eng sb par c up1 up2 q,
-  blocked_by_spec allow_eng block_eng c q ->
-  process allow_eng block_eng sb par c up1 q = process allow_eng block_eng sb par c up2 q.
+  forall allow_eng block_eng sb par ss srt c up1 up2 q,
+  blocked_by_spec allow_eng block_eng srt c q ->
+  process allow_eng block_eng sb par ss srt c up1 q = process allow_eng block_eng sb par ss srt c up2 q.
 Proof. exact no_upstream_data. Qed.
 Print Assumptions C01_no_upstream_data.
+
+(** The pipeline is the explicit function [process_spec] (pre-filter stages,
+    CheckHost verdict, what is done with each kind of verdict): the nine
+    stages collapse to it for every input. *)
+Theorem C01_pipeline_unfolded :
+  forall allow_eng block_eng sb par ss srt c up q,
+  process allow_eng block_eng sb par ss srt c up q = process_spec allow_eng block_eng sb par ss srt c up q.
+Proof. exact process_unfold. Qed.
+Print Assumptions C01_pipeline_unfolded.
+
+(** Every question ever put to the upstream, with all features on: the
+    client's own question when the verdict neither filters nor rewrites it
+    and it is not a DHCP host name; the target of a rewrite (legacy,
+    $dnsrewrite CNAME, safe search); the name of the block page.  Nothing
+    else. *)
+Theorem C01_upstream_calls_characterised :
+  forall allow_eng block_eng sb par ss srt c up q,
+  o_calls (process allow_eng block_eng sb par ss srt c up q) = spec_calls allow_eng block_eng sb par ss srt c q.
+Proof. exact upstream_calls_spec. Qed.
+Print Assumptions C01_upstream_calls_characterised.
+
+(** Whatever else is configured: a verdict "filtered" by a rule list or a
+    blocked service means no upstream call at all. *)
+Theorem C01_filtered_never_forwarded :
+  forall allow_eng block_eng sb par ss srt c up q res,
+  verdict allow_eng block_eng sb par ss srt c q = Some res -> r_filtered res = true ->
+  rule_reason (r_reason res) ->
+  o_calls (process allow_eng block_eng sb par ss srt c up q) = [].
+Proof. exact filtered_never_forwarded. Qed.
+Print Assumptions C01_filtered_never_forwarded.
+
+(** The stages in front of filtering (AAAA off, canary, health check, DDR,
+    DHCP host names and addresses) answer locally and never forward, blocked
+    name or not. *)
+Theorem C01_local_stages_never_forward :
+  forall allow_eng block_eng sb par ss srt c up q,
+  (forall dhcp, prefilter c q <> PContinue dhcp) ->
+  o_calls (process allow_eng block_eng sb par ss srt c up q) = [].
+Proof. exact local_stages_never_forward. Qed.
+Print Assumptions C01_local_stages_never_forward.
+
+(** Safe browsing / parental control with the block page given as a NAME:
+    the code resolves that name through the upstream; the only question sent
+    is for the block page (with the client's question type), never for the
+    blocked name. *)
+Theorem C01_blockpage_lookup_only :
+  forall allow_eng block_eng sb par ss srt c up q res,
+  verdict allow_eng block_eng sb par ss srt c q = Some res -> r_filtered res = true ->
+  (r_reason res = FilteredSafeBrowsing \/ r_reason res = FilteredParental) ->
+  forall call, In call (o_calls (process allow_eng block_eng sb par ss srt c up q)) ->
+  exists n, (c_sb_host c = BHName n \/ c_par_host c = BHName n) /\ call = (fqdn n, q_qtype q).
+Proof. exact blockpage_lookup_only. Qed.
+Print Assumptions C01_blockpage_lookup_only.
+
+(** A name that is both rewritten by the administrator's legacy rewrites and
+    on a block list: the rewrite decides; the outcome [rewritten_outcome] has
+    no engine, oracle or block list in it (answered from the rewrite's
+    addresses, or the rewrite's target is resolved instead of the name). *)
+Theorem C01_legacy_rewrite_decides :
+  forall allow_eng block_eng sb par ss srt c up q dhcp r,
+  prefilter c q = PContinue dhcp -> host_of q <> [] ->
+  st_filtering (request_settings c q) = true ->
+  legacy_rewrite srt c (host_of q) (q_qtype q) = Some r -> matched r = true ->
+  process allow_eng block_eng sb par ss srt c up q = rewritten_outcome c up q dhcp r /\
+  r_reason r = RewrittenLegacy.
+Proof. exact legacy_rewrite_decides. Qed.
+Print Assumptions C01_legacy_rewrite_decides.
 
 (** A query matched by an allow-list rule, or by nothing at all, passes the
     request stage ... *)
 Theorem C01_allow_rule_passes :
-  forall allow_eng block_eng sb par c q,
-  early c q = false -> protection_on c = true -> host_of q <> [] ->
-  allow_hit allow_eng (client_settings c q) (host_of q) (q_qtype q) ->
-  passes_request_stage allow_eng block_eng sb par c q /\
-  r_reason (check_host allow_eng block_eng sb par (client_settings c q) (trim_dot (q_name q)) (q_qtype q))
-    = NotFilteredAllowList.
+  forall allow_eng block_eng sb par ss srt c q,
+  prefilter c q = PContinue false -> protection_on c = true -> host_of q <> [] ->
+  rewrites_pass srt c (request_settings c q) (host_of q) (q_qtype q) ->
+  hosts_silent c (request_settings c q) (host_of q) (q_qtype q) ->
+  allow_hit allow_eng (request_settings c q) (host_of q) (q_qtype q) ->
+  exists res, passes_request_stage allow_eng block_eng sb par ss srt c q res /\
+              r_reason res = NotFilteredAllowList.
 Proof. exact allow_hit_passes. Qed.
 Print Assumptions C01_allow_rule_passes.
 
 Theorem C01_unmatched_passes :
-  forall allow_eng block_eng sb par c q,
-  early c q = false -> nothing_matches allow_eng block_eng sb par c q ->
-  passes_request_stage allow_eng block_eng sb par c q /\
-  check_host allow_eng block_eng sb par (client_settings c q) (trim_dot (q_name q)) (q_qtype q) = no_result.
+  forall allow_eng block_eng sb par ss srt c q,
+  prefilter c q = PContinue false -> nothing_matches allow_eng block_eng sb par ss srt c q ->
+  passes_request_stage allow_eng block_eng sb par ss srt c q no_result.
 Proof. exact nothing_matches_passes. Qed.
 Print Assumptions C01_unmatched_passes.
 
-(** ... and is forwarded exactly once with its own name and type; an
+(** ... and is forwarded exactly once with its own name and type, the answer
+    carries the client's question; an upstream failure gives SERVFAIL; an
     allow-listed query gets the upstream answer exactly as it came (for the
     unmatched case see C02_clean_answer_unchanged). *)
 Theorem C01_forwarded_once :
-  forall allow_eng block_eng sb par c up q,
-  passes_request_stage allow_eng block_eng sb par c q ->
-  o_calls (process allow_eng block_eng sb par c up q) = [the_call q] /\
+  forall allow_eng block_eng sb par ss srt c up q res,
+  passes_request_stage allow_eng block_eng sb par ss srt c q res ->
+  o_calls (process allow_eng block_eng sb par ss srt c up q) = [the_call q] /\
+  o_qname (process allow_eng block_eng sb par ss srt c up q) = q_name q /\
   (up (q_name q) (q_qtype q) = None ->
-   o_resp (process allow_eng block_eng sb par c up q) = Some servfail).
+   o_resp (process allow_eng block_eng sb par ss srt c up q) = Some servfail).
 Proof. exact forwarded_once. Qed.
 Print Assumptions C01_forwarded_once.
 
 Theorem C01_forwarded_intact :
-  forall allow_eng block_eng sb par c up q r,
-  passes_request_stage allow_eng block_eng sb par c q ->
-  r_reason (check_host allow_eng block_eng sb par (client_settings c q) (trim_dot (q_name q)) (q_qtype q))
-    = NotFilteredAllowList ->
+  forall allow_eng block_eng sb par ss srt c up q res r,
+  passes_request_stage allow_eng block_eng sb par ss srt c q res ->
+  r_reason res = NotFilteredAllowList ->
   up (q_name q) (q_qtype q) = Some r ->
-  o_resp (process allow_eng block_eng sb par c up q) = Some r /\
-  r_reason (o_result (process allow_eng block_eng sb par c up q)) = NotFilteredAllowList.
+  o_resp (process allow_eng block_eng sb par ss srt c up q) = Some r /\
+  o_result (process allow_eng block_eng sb par ss srt c up q) = res /\
+  o_qname (process allow_eng block_eng sb par ss srt c up q) = q_name q.
 Proof. exact allowlisted_intact. Qed.
 Print Assumptions C01_forwarded_intact.
 
 (** Protection off (switched off, or paused with the deadline ahead):
-    nothing is blocked, whatever the lists, services and oracles say. *)
+    nothing is blocked, whatever the lists, services and oracles say - no
+    verdict carries a blocking, safe-search or allow-list reason (the
+    administrator's rewrites still apply, as in the code) ... *)
+Theorem C01_protection_off_blocks_nothing :
+  forall allow_eng block_eng sb par ss srt c q res,
+  protection_on c = false -> verdict allow_eng block_eng sb par ss srt c q = Some res ->
+  r_filtered res = false /\
+  (r_reason res = NotFilteredNotFound \/ r_reason res = RewrittenLegacy \/
+   r_reason res = RewrittenAutoHosts \/ r_reason res = RewrittenRule).
+Proof. exact protection_off_blocks_nothing. Qed.
+Print Assumptions C01_protection_off_blocks_nothing.
+
+(** ... and a query none of those rewrites concerns is forwarded and the
+    upstream answer delivered unchanged. *)
 Theorem C01_protection_off :
-  forall allow_eng block_eng sb par c up q,
-  protection_on c = false -> early c q = false ->
-  let o := process allow_eng block_eng sb par c up q in
+  forall allow_eng block_eng sb par ss srt c up q,
+  protection_on c = false -> prefilter c q = PContinue false ->
+  nothing_matches allow_eng block_eng sb par ss srt c q ->
+  let o := process allow_eng block_eng sb par ss srt c up q in
   o_result o = no_result /\ o_calls o = [the_call q] /\
   o_resp o = Some (match up (q_name q) (q_qtype q) with Some r => r | None => servfail end).
 Proof. exact protection_off. Qed.
@@ -90,52 +185,71 @@ Print Assumptions C01_protection_off.
     outcome is the same for any two pairs of engines) and no rule-list
     reason is reported. *)
 Theorem C01_client_filtering_off :
-  forall a1 b1 a2 b2 sb par c up q,
-  st_filtering (client_settings c q) = false ->
-  process a1 b1 sb par c up q = process a2 b2 sb par c up q.
+  forall a1 b1 a2 b2 sb par ss srt c up q,
+  st_filtering (request_settings c q) = false ->
+  process a1 b1 sb par ss srt c up q = process a2 b2 sb par ss srt c up q.
 Proof. exact client_filtering_off. Qed.
 Print Assumptions C01_client_filtering_off.
 
 Theorem C01_client_filtering_off_reason :
-  forall a b sb par c up q,
-  st_filtering (client_settings c q) = false ->
-  let r := r_reason (o_result (process a b sb par c up q)) in
+  forall a b sb par ss srt c up q,
+  st_filtering (request_settings c q) = false ->
+  let r := r_reason (o_result (process a b sb par ss srt c up q)) in
   r <> FilteredBlockList /\ r <> NotFilteredAllowList.
 Proof. exact client_filtering_off_reason. Qed.
 Print Assumptions C01_client_filtering_off_reason.
 
-(** Layer B: what the engine's verdict means over the rule list. *)
+(** Layer B: what the engine's verdict means over the rule list: the reported
+    rule is a candidate (survives $badfilter, carries no $dnsrewrite) of the
+    maximal priority class. *)
 Theorem C01_engine_verdict_class :
   forall rs r, get_dns_basic_rule rs = Some r ->
-  In r (remove_badfilter rs) /\
-  forall r', In r' (remove_badfilter rs) -> (rule_class r' <= rule_class r)%nat.
+  In r (basic_candidates rs) /\
+  forall r', In r' (basic_candidates rs) -> (rule_class r' <= rule_class r)%nat.
 Proof. exact basic_rule_max_class. Qed.
 Print Assumptions C01_engine_verdict_class.
 
 Theorem C01_engine_verdict_none :
-  forall rs, get_dns_basic_rule rs = None <-> remove_badfilter rs = [].
+  forall rs, get_dns_basic_rule rs = None <-> basic_candidates rs = [].
 Proof. exact basic_rule_none. Qed.
 Print Assumptions C01_engine_verdict_none.
 
+(** $dnsrewrite: the in-place loop of DNSRewrites() terminates within its
+    bound (the model's fuel is never exhausted) and returns only matching
+    $dnsrewrite rules. *)
+Theorem C01_dnsrewrites_total :
+  forall dr, exists l,
+  drw_loop (S (length (filter has_drw (dr_all dr)))) 0 (filter has_drw (dr_all dr)) = Some l /\
+  dns_rewrites dr = l.
+Proof. exact dns_rewrites_total. Qed.
+Print Assumptions C01_dnsrewrites_total.
+
+Theorem C01_dnsrewrites_sound :
+  forall dr r, In r (dns_rewrites dr) -> In r (dr_all dr) /\ has_drw r = true.
+Proof. exact dns_rewrites_sound. Qed.
+Print Assumptions C01_dnsrewrites_sound.
+
 (** Layers together: over the rule lists themselves (any length), "no
-    allow-list rule matches and a non-exception block rule is of the highest
-    priority class among the matching block rules that survive $badfilter"
-    gives the rule-list premise of C01_blocked_is_local for the modelled
-    engines. *)
+    allow-list rule matches, no matching block-list rule carries $dnsrewrite,
+    and a non-exception block rule is of the highest priority class among the
+    candidates" gives the rule-list premise of C01_blocked_is_local for the
+    modelled engines. *)
 Theorem C01_engine_verdict_spec :
   forall allow block st host qt,
   host <> [] -> st_filtering st = true ->
-  no_rule_matches allow (rq_of st host qt) -> wins_block block (rq_of st host qt) ->
+  no_rule_matches allow (rq_of st host qt) -> no_rewrite_rule block (rq_of st host qt) ->
+  wins_block block (rq_of st host qt) ->
   list_blocked (match_request allow) (match_request block) st host qt.
 Proof. exact list_blocked_from_rules. Qed.
 Print Assumptions C01_engine_verdict_spec.
 
 (** The tie of the two order tables to the source: the host-checker list of
     filtering.New and the stage list of handleDNSRequest, as extracted from
-    the current source by tools/ordertables, are exactly the literals
-    [checker_order] / [stage_order] of the model (with the unmodelled entries
-    at their known places), and the extraction left nothing unresolved.  A
-    reordering in the source changes Gen/PipelineTables.v and breaks this. *)
+    the current source by tools/ordertables, are exactly the images of the
+    literals [checker_order] / [stage_order] of the model (every checker and
+    every stage has its constructor), and the extraction left nothing
+    unresolved.  A reordering in the source changes Gen/PipelineTables.v and
+    breaks this. *)
 Theorem C01_tables_match_source :
   Gen.PipelineTables.unresolved = [] /\
   Gen.PipelineTables.host_checkers = expected_checkers /\
@@ -143,16 +257,60 @@ Theorem C01_tables_match_source :
 Proof. exact tables_match_source. Qed.
 Print Assumptions C01_tables_match_source.
 
+(** The guard facts the theorems rely on, pinned to the source: the
+    early-exit structure (guard conditions, returned codes, which arms set the
+    response, switch / case lists) of the stage functions, filterDNSRequest /
+    filterDNSResponse, isRewrittenCNAME, genDNSFilterMessage, genBlockedHost,
+    CheckHost, matchHost, processDNSResultRewrites, matchSysHosts,
+    matchBlockedServicesRules and checkSafeSearch, as extracted from the
+    current source, equals the table written next to the model
+    (Model/PipelineGuards.v, each entry naming its model branch).  E.g. the
+    `if pctx.Res != nil` guard of processUpstream, the case order of
+    filterDNSRequest, the `break` after the first filtered record. *)
+Theorem C01_guards_match_source : Gen.PipelineTables.guards = expected_guards.
+Proof. exact guards_match_source. Qed.
+Print Assumptions C01_guards_match_source.
+
 (** Non-vacuity: one configuration per blocking mode that meets the premise
     of C01_blocked_is_local, with the modelled engine over "||a.test^". *)
 Example C01_blocked_premises_satisfiable :
-  forall m, blocked_by_spec (match_request []) (match_request ex_block_rules) (ex_cfg m) ex_query.
+  forall m, blocked_by_spec (match_request []) (match_request ex_block_rules) Rewrites.isort (ex_cfg m) ex_query.
 Proof. exact ex_blocked_by_spec. Qed.
 
 Example C01_allow_premises_satisfiable :
-  allow_hit (match_request ex_allow_rules) (client_settings (ex_cfg MDefault) ex_query) (host_of ex_query) (q_qtype ex_query) /\
-  nothing_matches (match_request []) (match_request ex_block_rules) (fun _ => false) (fun _ => false)
-    (ex_cfg MDefault) ex_query_other /\
-  protection_on ex_cfg_off = false /\ early ex_cfg_off ex_query = false /\
-  st_filtering (client_settings (ex_cfg MDefault) ex_query_kid) = false.
+  allow_hit (match_request ex_allow_rules) (request_settings (ex_cfg MDefault) ex_query) (host_of ex_query) (q_qtype ex_query) /\
+  nothing_matches (match_request []) (match_request ex_block_rules) (fun _ => false) (fun _ => false) no_ss
+    Rewrites.isort (ex_cfg MDefault) ex_query_other /\
+  prefilter (ex_cfg MDefault) ex_query_other = PContinue false /\
+  protection_on ex_cfg_off = false /\ prefilter ex_cfg_off ex_query = PContinue false /\
+  st_filtering (request_settings (ex_cfg MDefault) ex_query_kid) = false.
 Proof. exact ex_other_premises. Qed.
+
+(** A legacy rewrite and a block rule for the same name: the premises of
+    C01_legacy_rewrite_decides hold while the name is blocked by the spec in
+    the configuration without the rewrite. *)
+Example C01_rewrite_premises_satisfiable :
+  prefilter ex_cfg_rw ex_query_a = PContinue false /\ host_of ex_query_a <> [] /\
+  st_filtering (request_settings ex_cfg_rw ex_query_a) = true /\
+  (exists r, legacy_rewrite Rewrites.isort ex_cfg_rw (host_of ex_query_a) 1 = Some r /\ matched r = true /\
+             is_rewritten_cname r = true) /\
+  blocked_by_spec (match_request []) (match_request ex_block_rules) Rewrites.isort (ex_cfg MDefault) ex_query_a.
+Proof. exact ex_rewrite_premises. Qed.
+
+(** What the code does with a rewritten question: it is not filtered again.
+    Rewrite "x.test -> b.a.test", block rule "||a.test^": the blocked name
+    b.a.test goes upstream (the administrator's rewrite is followed). *)
+Example C01_rewrite_target_not_filtered :
+  o_calls (process (match_request []) (match_request ex_block_rules) (fun _ => false) (fun _ => false) no_ss
+             Rewrites.isort (ex_cfg_with MDefault None [ex_rw_to_blocked] BHEmpty) (fun _ _ => Some ex_answer)
+             ex_query_other)
+  = [([98;46;97;46;116;101;115;116;46], 1)].
+Proof. exact ex_rewrite_target_not_filtered. Qed.
+
+Example C01_blockpage_premises_satisfiable :
+  let c := ex_cfg_with MDefault None [] (BHName [98;108;111;99;107;46;112;97;103;101]) in
+  exists res,
+    verdict (match_request []) (match_request []) (fun h => eqb_bytes h b_x_test) (fun _ => false) no_ss
+            Rewrites.isort c ex_query_other = Some res /\
+    r_filtered res = true /\ r_reason res = FilteredSafeBrowsing.
+Proof. exact ex_blockpage_premises. Qed.
